@@ -12,6 +12,7 @@ POOL = ['a', 'b', 'c', 'd', 'e', 'x', 'y', 'f', 'g', 'aa', 'ab', 'A', '_', '$', 
         'undefined', 'window', 'z']
 LABELS = ['L', 'a', 'b', 'M']
 PROPS = ['a', 'b', 'p', 'x', 'length', 'in', 'do', 'e']
+ACCESSOR_NAMES = ['a', 'b', 'p', 'x', 'e', 'f']
 
 
 class G(object):
@@ -55,7 +56,20 @@ class G(object):
             return '%s.%s' % (self.name(), self.one(PROPS))
         if k == 6:
             n = self.pick(3)
-            return '({%s})' % ', '.join('%s: %s' % (self.one(PROPS), self.expr(fuel - 1)) for _ in range(n))
+            items = ['%s: %s' % (self.one(PROPS), self.expr(fuel - 1)) for _ in range(n)]
+            if fuel > 0 and self.chance(40):
+                # accessors: each body is a function scope of its own, code follows in the enclosing one
+                saved, saved_labels = self.catch_params, self.labels
+                self.catch_params, self.labels = [], []
+                for _ in range(1 + self.pick(2)):
+                    if self.chance(50):
+                        acc = 'get %s() { %s }' % (self.one(ACCESSOR_NAMES), self.body(fuel - 1, top=True))
+                    else:
+                        acc = 'set %s(%s) { %s }' % (self.one(ACCESSOR_NAMES), self.decl_name(),
+                                                    self.body(fuel - 1, top=True))
+                    items.insert(self.pick(len(items) + 1), acc)
+                self.catch_params, self.labels = saved, saved_labels
+            return '({%s})' % ', '.join(items)
         if k == 7:
             return '(%s)' % self.func(fuel - 1, expr=True)
         if k == 8:
